@@ -116,6 +116,66 @@ fn dec_all_i(b: &[u8]) -> [Option<(i32, usize)>; 3] {
     [a, bb, cc]
 }
 
+/// (bytes before, bytes after) a var-int in a buffer; replaced by the specification's set when the vectors arrive
+static CONTEXTS: std::sync::RwLock<Vec<(Vec<u8>, Vec<u8>)>> = std::sync::RwLock::new(Vec::new());
+fn contexts() -> Vec<(Vec<u8>, Vec<u8>)> {
+    let c = CONTEXTS.read().unwrap();
+    if c.is_empty() {
+        vec![(vec![], vec![0x80]), (vec![], vec![0xFF; 8]), (vec![0xFF], vec![0xFF; 8]), (vec![], vec![0x7F; 8])]
+    } else {
+        c.clone()
+    }
+}
+/// read a var-int placed between `pre` and `suf` from each source: (value, bytes consumed in total)
+fn in_context_u(pre: &[u8], enc: &[u8], suf: &[u8]) -> [Option<(u32, usize)>; 3] {
+    let mut b = pre.to_vec();
+    b.extend_from_slice(enc);
+    b.extend_from_slice(suf);
+    let mut s = SliceInput::new(&b);
+    let a = s.read_bytes(pre.len()).ok().map(|_| ()).and_then(|_| s.read_var_u32().ok()).map(|v| (v, s.pos));
+    let mut o = OwnedInput::new(b.clone());
+    let bb = o.read_bytes(pre.len()).ok().map(|_| ()).and_then(|_| o.read_var_u32().ok()).map(|v| {
+        let mut left = 0;
+        while o.read_u8().is_ok() {
+            left += 1;
+        }
+        (v, b.len() - left)
+    });
+    let mut c = DeserializationContext::new(&b);
+    let cc = c.read_bytes(pre.len()).ok().map(|_| ()).and_then(|_| c.read_var_u32().ok()).map(|v| {
+        let mut left = 0;
+        while c.read_u8().is_ok() {
+            left += 1;
+        }
+        (v, b.len() - left)
+    });
+    [a, bb, cc]
+}
+fn in_context_i(pre: &[u8], enc: &[u8], suf: &[u8]) -> [Option<(i32, usize)>; 3] {
+    let mut b = pre.to_vec();
+    b.extend_from_slice(enc);
+    b.extend_from_slice(suf);
+    let mut s = SliceInput::new(&b);
+    let a = s.read_bytes(pre.len()).ok().map(|_| ()).and_then(|_| s.read_var_i32().ok()).map(|v| (v, s.pos));
+    let mut o = OwnedInput::new(b.clone());
+    let bb = o.read_bytes(pre.len()).ok().map(|_| ()).and_then(|_| o.read_var_i32().ok()).map(|v| {
+        let mut left = 0;
+        while o.read_u8().is_ok() {
+            left += 1;
+        }
+        (v, b.len() - left)
+    });
+    let mut c = DeserializationContext::new(&b);
+    let cc = c.read_bytes(pre.len()).ok().map(|_| ()).and_then(|_| c.read_var_i32().ok()).map(|v| {
+        let mut left = 0;
+        while c.read_u8().is_ok() {
+            left += 1;
+        }
+        (v, b.len() - left)
+    });
+    [a, bb, cc]
+}
+
 fn check_u(x: u32, want: &[u8], r: &mut Report, what: &str) -> bool {
     let res = guarded(|| {
         let e = enc_all_u(x);
@@ -123,11 +183,11 @@ fn check_u(x: u32, want: &[u8], r: &mut Report, what: &str) -> bool {
         for d in dec_all_u(want) {
             ok &= d == Some((x, want.len()));
         }
-        // followed by another byte: exactly the encoding is consumed
-        let mut more = want.to_vec();
-        more.push(0x80);
-        for d in dec_all_u(&more) {
-            ok &= d == Some((x, want.len()));
+        // in any context: exactly the encoding is consumed, the neighbours do not leak into the value
+        for (pre, suf) in contexts() {
+            for d in in_context_u(&pre, want, &suf) {
+                ok &= d == Some((x, pre.len() + want.len()));
+            }
         }
         (ok, e)
     });
@@ -150,6 +210,11 @@ fn check_i(x: i32, want: &[u8], r: &mut Report, what: &str) -> bool {
         for d in dec_all_i(want) {
             ok &= d == Some((x, want.len()));
         }
+        for (pre, suf) in contexts() {
+            for d in in_context_i(&pre, want, &suf) {
+                ok &= d == Some((x, pre.len() + want.len()));
+            }
+        }
         (ok, e)
     });
     match res {
@@ -167,6 +232,9 @@ fn check_i(x: i32, want: &[u8], r: &mut Report, what: &str) -> bool {
 
 /// {"kind":"varint","unsigned":[[hi,lo,[bytes]],..],"signed":[[n,[bytes]],..]}: TLC vectors
 pub fn varint_case(case: &Value, _d: Dispatch, r: &mut Report) {
+    if let Some(cs) = case.get("contexts").and_then(|c| c.as_array()) {
+        *CONTEXTS.write().unwrap() = cs.iter().map(|c| (bytes_of(&c[0]), bytes_of(&c[1]))).collect();
+    }
     for v in case["unsigned"].as_array().unwrap() {
         let x = (v[0].as_u64().unwrap() * P28 + v[1].as_u64().unwrap()) as u32;
         let want = bytes_of(&v[2]);
@@ -209,14 +277,18 @@ pub fn varsweep_case(case: &Value, _d: Dispatch, r: &mut Report) {
                 let hi = if t + 1 == threads { total } else { total / threads * (t + 1) };
                 let mut x = lo + (stride + phase - lo % stride) % stride;
                 let mut buf = [0u8; 5];
-                let mut out: Vec<u8> = Vec::with_capacity(8);
+                let mut out: Vec<u8> = Vec::with_capacity(16);
                 while x < hi {
                     let u = x as u32;
                     let w = spec_enc_u(u as u64, &mut buf);
                     out.clear();
                     out.write_var_u32(u);
                     let mut s = SliceInput::new(&out);
-                    if out[..] != buf[..w] || s.read_var_u32().ok() != Some(u) || s.pos != w {
+                    let mut ok = out[..] == buf[..w] && s.read_var_u32().ok() == Some(u) && s.pos == w;
+                    out.extend_from_slice(&[0xFF; 8]);       // the same var-int followed by other data
+                    let mut s = SliceInput::new(&out);
+                    ok &= s.read_var_u32().ok() == Some(u) && s.pos == w;
+                    if !ok {
                         if bad_u.len() < 4 {
                             bad_u.push(u);
                         }
@@ -226,7 +298,11 @@ pub fn varsweep_case(case: &Value, _d: Dispatch, r: &mut Report) {
                     out.clear();
                     out.write_var_i32(i);
                     let mut s = SliceInput::new(&out);
-                    if out[..] != buf[..w] || s.read_var_i32().ok() != Some(i) || s.pos != w {
+                    let mut ok = out[..] == buf[..w] && s.read_var_i32().ok() == Some(i) && s.pos == w;
+                    out.extend_from_slice(&[0xFF; 8]);
+                    let mut s = SliceInput::new(&out);
+                    ok &= s.read_var_i32().ok() == Some(i) && s.pos == w;
+                    if !ok {
                         if bad_i.len() < 4 {
                             bad_i.push(i);
                         }
